@@ -28,12 +28,15 @@ TAGS = {
     13: 'the executed workflow does not have exactly the declared tasks and edges',
     14: 'Workflow(builder) does not have exactly the builder\'s tasks (in order) and edges',
     15: 'as_dask_dict lists predecessor keys in an order different from the node order',
+    16: 'another scheduler (synchronous / 1 worker / 8 workers) gives a different result or number of calls',
 }
 CORR = (1, 2, 3, 4, 5, 6, 7, 8)
-ORACLE = (11, 12, 13, 14, 15)
+ORACLE = (11, 12, 13, 14, 15, 16)
 # guard tag -> finding id: an oracle failure (11/12) is excused only when the faithful model explains it (no
 # correspondence tag), the guard conjunct is false on that input and the finding is listed open
-GUARD_FINDING = {201: 'C17-STATIC-KEY', 202: 'C17-STATIC-CALLABLE-TUPLE', 203: 'C17-CONTEXT-REORDERS-PREDECESSORS'}
+GUARD_FINDING = {201: 'C17-STATIC-KEY', 202: 'C17-STATIC-CALLABLE-TUPLE'}
+# (C17-CONTEXT-REORDERS-PREDECESSORS is fixed in /repo 4400919: tag 203 is only a distribution fact now, a wrong
+# predecessor order is a VIOLATION)
 
 
 # ------------------------------------------------------------------ generator
@@ -50,13 +53,17 @@ UNSAFE_STATICS = [
 ]
 
 
-def gen_spec(rng, max_tasks=12, p_unsafe=0.04, p_ctx=0.3, p_cycle=0.01, p_nosink=0.1):
-    nt = rng.choice([1, 2, 3, 3, 4, 4, 5, 5, 6, 6, 7, 8, 9, 10, 11, 12])
-    nt = min(nt, max_tasks)
-    nf = max(2, nt if rng.random() < 0.7 else rng.randint(2, max(2, nt)))
-    ctx_heavy = rng.random() < 0.5
-    fns = [{'ctx': (rng.random() < p_ctx) if ctx_heavy else (rng.random() < 0.05)} for _ in range(nf)]
-    unsafe_case = rng.random() < p_unsafe * 4
+def gen_fns(rng, nf, p_ctx):
+    ctx_heavy = rng.random() < 0.35
+    fns = []
+    for _ in range(nf):
+        c = (rng.random() < p_ctx) if ctx_heavy else (rng.random() < 0.04)
+        fns.append({'ctx': c, 'ctx2': (not c) and rng.random() < 0.08})
+    return fns
+
+
+def gen_tasks(rng, nt, nf, p_unsafe):
+    unsafe_case = rng.random() < p_unsafe
     tasks = []
     for i in range(nt):
         k = rng.choice([0, 0, 0, 1, 1, 2])
@@ -67,8 +74,66 @@ def gen_spec(rng, max_tasks=12, p_unsafe=0.04, p_ctx=0.3, p_cycle=0.01, p_nosink
             else:
                 inputs.append(rng.choice(SAFE_STATICS))
         tasks.append({'fn': (i % nf) + 1 if nf >= nt else rng.randint(1, nf), 'inputs': inputs})
+    return tasks
+
+
+def gen_layered(rng, p_unsafe=0.08, p_ctx=0.3):
+    """The way pharmpy tools compose workflows: layers of parallel tasks inserted one after the other
+    (n:n, n:1, 1:n, sometimes the refused n:m), each layer a builder of its own."""
+    widths = []
+    total = 0
+    while total < 11 and len(widths) < 5:
+        w = rng.choice([1, 1, 2, 2, 3, 4])
+        if total + w > 11:
+            break
+        widths.append(w)
+        total += w
+        if rng.random() < 0.25:
+            break
+    nt = total + 1
+    nf = max(2, nt)
+    nb = len(widths)
+    ops = []
+    t = 0
+    layers = []
+    for b, w in enumerate(widths):
+        layer = list(range(t, t + w))
+        t += w
+        for x in layer:
+            ops.append(['add', b, x, []])
+        if b > 0 and rng.random() < 0.3 and w >= 2:      # a little structure inside the inserted layer
+            ops.append(['add', b, layer[-1], [layer[0]]])
+        layers.append(layer)
+    for b in range(1, nb):
+        r = rng.random()
+        prev = layers[b - 1]
+        if r < 0.55:
+            ps = None
+        elif r < 0.8:
+            ps = list(prev)
+            rng.shuffle(ps)
+        elif r < 0.9:
+            ps = rng.choice(prev)
+        else:
+            ps = rng.sample(prev, rng.randint(1, len(prev)))
+        ops.append(['insert', 0, b, ps, rng.random() < 0.6])
+        if rng.random() < 0.1:
+            ops.append(['copy', 0])
+    ops.append(['sink', 0, nt - 1])
+    return {'fns': gen_fns(rng, nf, p_ctx), 'tasks': gen_tasks(rng, nt, nf, p_unsafe), 'nb': max(nb, 1), 'ops': ops}
+
+
+def gen_spec(rng, max_tasks=12, p_unsafe=0.08, p_ctx=0.3, p_cycle=0.01, p_nosink=0.08):
+    if rng.random() < 0.25:
+        return gen_layered(rng, p_unsafe, p_ctx)
+    nt = rng.choice([1, 2, 3, 3, 4, 4, 5, 5, 6, 6, 7, 8, 9, 10, 11, 12])
+    nt = min(nt, max_tasks)
+    nf = max(2, nt if rng.random() < 0.7 else rng.randint(2, max(2, nt)))
+    fns = gen_fns(rng, nf, p_ctx)
+    tasks = gen_tasks(rng, nt, nf, p_unsafe)
     nb = rng.choice([1, 1, 2, 2, 3])
     present = [[] for _ in range(nb)]
+    roots = [[] for _ in range(nb)]
     inserted = [False] * nb
     ops = []
     reserve = []
@@ -90,20 +155,30 @@ def gen_spec(rng, max_tasks=12, p_unsafe=0.04, p_ctx=0.3, p_cycle=0.01, p_nosink
             return ps[0]            # the non-list form of predecessors
         return ps
 
-    for t in order:
+    def do_insert(o):
+        ops.append(gen_insert(rng, 0, o, present, roots))
+        present[0] += present[o]
+        inserted[o] = True
+
+    # sometimes the output task enters the workflow early (it is then not the last node)
+    early_sink = rng.random() < 0.25 and len(order) >= 2
+    early_at = rng.randrange(len(order)) if early_sink else None
+    for k, t in enumerate(order):
+        if k == early_at:
+            ops.append(['add', 0, nt - 1, []])
         b = rng.randrange(nb) if rng.random() < 0.5 else 0
         if inserted[b]:
             b = 0
-        ops.append(['add', b, t, pick_preds(b, t)])
+        ps = pick_preds(b, t)
+        ops.append(['add', b, t, ps])
         present[b].append(t)
+        if ps == []:
+            roots[b].append(t)
         r = rng.random()
         if r < 0.12:
             cand = [o for o in range(1, nb) if present[o] and not inserted[o]]
             if cand:
-                o = rng.choice(cand)
-                ops.append(gen_insert(rng, 0, o, present))
-                present[0] += present[o]
-                inserted[o] = True
+                do_insert(rng.choice(cand))
         elif r < 0.2:
             if reserve and present[b]:
                 old = rng.choice(present[b])
@@ -117,34 +192,36 @@ def gen_spec(rng, max_tasks=12, p_unsafe=0.04, p_ctx=0.3, p_cycle=0.01, p_nosink
                 present[b] = [x for x in present[b] if x != old]
         elif r < 0.26:
             ops.append(['copy', b])
-        elif r < 0.29:
-            if nb > 1:
-                o = rng.randrange(nb)
-                ops.append(['plus', b, o])
+        elif r < 0.30:
+            cand = [o for o in range(nb) if o != b and present[o]]
+            if cand and present[b]:
+                o = rng.choice(cand)
+                ops.append([rng.choice(['plus', 'plus', 'wplus']), b, o])
                 present[b] += [x for x in present[o] if x not in present[b]]
-        elif r < 0.31:
+        elif r < 0.32:
             ops.append(['ctx', b])
     for o in range(1, nb):
         if present[o] and not inserted[o] and rng.random() < 0.85:
-            ops.append(gen_insert(rng, 0, o, present))
-            present[0] += present[o]
-            inserted[o] = True
-    if rng.random() > p_nosink:
+            do_insert(o)
+    if early_sink:
+        ops.append(['sinkto', 0, nt - 1])
+    elif rng.random() > p_nosink:
         ops.append(['sink', 0, nt - 1])
     else:
         ops.append(['add', 0, nt - 1, pick_preds(0, nt - 1)])
     return {'fns': fns, 'tasks': tasks, 'nb': nb, 'ops': ops}
 
 
-def gen_insert(rng, b, o, present):
+def gen_insert(rng, b, o, present, roots):
     r = rng.random()
-    if r < 0.5 or not present[b]:
+    if r < 0.4 or not present[b]:
         ps = None
+    elif r < 0.65 and len(present[b]) >= len(roots[o]) >= 1:
+        ps = rng.sample(present[b], len(roots[o]))       # as many predecessors as the inserted workflow has inputs
+    elif r < 0.8:
+        ps = rng.choice(present[b])                      # the non-list form
     else:
-        k = rng.choice([1, 1, 2, 2, 3])
-        ps = rng.sample(present[b], min(k, len(present[b])))
-        if len(ps) == 1 and rng.random() < 0.5:
-            ps = ps[0]
+        ps = rng.sample(present[b], min(rng.choice([1, 2, 2, 3]), len(present[b])))
     return ['insert', b, o, ps, rng.random() < 0.5]
 
 
@@ -157,7 +234,7 @@ def enum_dag_specs(n, rng):
         for bit, (i, j) in enumerate(pairs):
             if mask >> bit & 1:
                 preds[j].append(i)
-        fns = [{'ctx': rng.random() < 0.3} for _ in range(n)]
+        fns = [{'ctx': rng.random() < 0.3, 'ctx2': False} for _ in range(n)]
         tasks = [{'fn': i + 1, 'inputs': [rng.choice(SAFE_STATICS)] if rng.random() < 0.3 else []} for i in range(n)]
         ops = []
         for j in range(n):
@@ -168,6 +245,9 @@ def enum_dag_specs(n, rng):
 
 
 # ------------------------------------------------------------------ implementation side
+_NA = object()
+
+
 class Marker:
     """What family function j returns in first position (never callable, never a string)."""
     def __init__(self, j):
@@ -181,17 +261,25 @@ class Family:
         self.funcs = []
         self.index = {}
         for j, f in enumerate(fns, 1):
-            fn = self._make(j, f['ctx'])
+            fn = self._make(j, 'ctx' if f['ctx'] else ('ctx2' if f.get('ctx2') else 'plain'))
             self.funcs.append(fn)
             self.index[fn] = j
 
-    def _make(self, j, ctx):
+    def _make(self, j, kind):
         fam = self
-        if ctx:
-            def f(context, *args):
+        if kind == 'ctx':
+            def f(context=_NA, *args):      # total, so that a static (f,) evaluated by dask does not raise
+                args = ((context,) if context is not _NA else ()) + args
                 with fam.lock:
-                    fam.log.append((j, (context,) + args))
-                return (Marker(j), context) + args
+                    fam.log.append((j, args))
+                return (Marker(j),) + args
+        elif kind == 'ctx2':
+            # 'context' is the SECOND parameter: insert_context must leave this one alone
+            def f(first=_NA, context=_NA, *args):
+                args = tuple(a for a in (first, context) if a is not _NA) + args
+                with fam.lock:
+                    fam.log.append((j, args))
+                return (Marker(j),) + args
         else:
             def f(*args):
                 with fam.lock:
@@ -220,11 +308,14 @@ class Exporter:
             return '(STuple ' + ct.lst([self.sval(x) for x in v]) + ')'
         if type(v) is list:
             return '(SList ' + ct.lst([self.sval(x) for x in v]) + ')'
-        if callable(v):
-            return f'(SFun {ct.pos(self.fam.index[v])})'
-        if v is None or isinstance(v, (int, dict)):
-            return f"(SAtom {self.atoms.p(type(v).__name__ + ':' + repr(v))})"
-        raise TypeError(f'cannot export {v!r}')
+        try:
+            j = self.fam.index.get(v) if callable(v) else None
+        except TypeError:
+            j = None
+        if j is not None:
+            return f'(SFun {ct.pos(j)})'
+        # ints, None, dicts and anything unknown: an opaque atom identified by type and repr
+        return f"(SAtom {self.atoms.p(type(v).__name__ + ':' + repr(v))})"
 
     def svals(self, vs):
         return ct.lst([self.sval(v) for v in vs])
@@ -336,6 +427,10 @@ def run_impl(spec, modname=None, perturb=None):
                 builders[b] = WorkflowBuilder(Workflow(wb))
             elif kind == 'ctx':
                 P['insert_context'](wb, context)
+            elif kind == 'sinkto':
+                wb.add_task(table[op[2]], predecessors=[x for x in wb.output_tasks if x is not table[op[2]]])
+            elif kind == 'wplus':
+                builders[b] = WorkflowBuilder(Workflow(wb) + Workflow(builders[op[2]]))
             else:
                 raise KeyError(kind)
         except ValueError:
@@ -356,14 +451,16 @@ def run_impl(spec, modname=None, perturb=None):
             result = f'(ROk {ex.sval(res)})'
             rkind = 'ok'
         except ValueError as e:
-            rkind = 'nosink' if 'one output task' in str(e) else 'other'
+            rkind = 'nosink' if 'one output task' in str(e) else 'other:ValueError'
             result = 'RNoSingleSink' if rkind == 'nosink' else 'ROther'
         except RuntimeError as e:
-            rkind = 'cycle' if 'Cycle detected' in str(e) else 'other'
+            rkind = 'cycle' if 'Cycle detected' in str(e) else 'other:RuntimeError'
             result = 'RCycle' if rkind == 'cycle' else 'ROther'
+        except Exception as e:      # anything else never agrees with the model
+            rkind = 'other:' + type(e).__name__
+            result = 'ROther'
     log = list(fam.log)
-    prep = disp.wf
-    assert prep is not None
+    prep = disp.wf if disp.wf is not None else wf
     o_prep, _ = observe_graph(P, prep, table, ex)
     try:
         d = prep.as_dask_dict()
@@ -374,14 +471,37 @@ def run_impl(spec, modname=None, perturb=None):
     else:
         keys = ct.lst([ex.strings.p(k) for k in d])
         dterm = '(Some ' + ct.lst([ct.pair(ex.strings.p(k), ex.sval(v)) for k, v in d.items()]) + ')'
-    tasks_t = ct.lst([f"(mkTask {ct.pos(i + 1)} {ct.nat(0)} {ct.pos(t['fn'])} {ex.svals(table[i].task_input)} "
+    alts = []
+    if d is not None:
+        import dask
+        import dask.threaded
+        from concurrent.futures import ThreadPoolExecutor
+        for how in ('sync', 'one', 'eight'):
+            fam.log.clear()
+            d2 = prep.as_dask_dict()
+            try:
+                if how == 'sync':
+                    r2 = dask.get(d2, 'results')
+                elif how == 'one':
+                    r2 = dask.threaded.get(d2, 'results', num_workers=1)
+                else:
+                    with ThreadPoolExecutor(8) as pool:
+                        r2 = dask.threaded.get(d2, 'results', pool=pool)
+                rt = f'(ROk {ex.sval(r2)})'
+            except RuntimeError as e:
+                rt = 'RCycle' if 'Cycle detected' in str(e) else 'ROther'
+            except Exception:
+                rt = 'ROther'
+            alts.append(ct.pair(rt, ct.nat(len(fam.log))))
+    alt_t = ct.lst(alts)
+    tasks_t = ct.lst([f"(mkTask {ct.pos(i + 1)} {ct.pos(i + 1)} {ct.pos(t['fn'])} {ex.svals(table[i].task_input)} "
                       f"{ct.boolean(spec['fns'][t['fn'] - 1]['ctx'])})" for i, t in enumerate(spec['tasks'])])
     ops_t = ct.lst([op_term(op) for op in spec['ops']])
     log_t = ct.lst([ct.pair(ct.pos(j), ex.svals(args)) for j, args in log])
     term = ('(mkCase ' + tasks_t + ' ' + ct.nat(spec['nb']) + '\n ' + ops_t + '\n ' + ex.sval(context) + ' '
             + ct.lst([ct.nat(i) for i in errs]) + '\n ' + o_builder + '\n ' + o_wf + '\n '
             + ct.lst([ct.pos(i) for i in ins]) + ' ' + ct.lst([ct.pos(i) for i in outs]) + '\n ' + o_prep + '\n '
-            + keys + '\n ' + dterm + '\n ' + result + '\n ' + log_t + ')')
+            + keys + '\n ' + dterm + '\n ' + result + '\n ' + log_t + '\n ' + alt_t + ')')
     info = {'n': len(wf), 'edges': sum(len(wf.get_successors(t)) for t in wf.tasks), 'result': rkind,
             'errs': len(errs), 'ncalls': len(log),
             'maxpreds': max([len(wf.get_predecessors(t)) for t in wf.tasks] or [0]),
@@ -412,6 +532,10 @@ def op_term(op):
         return f"(OpCopy {ct.nat(op[1])})"
     if kind == 'ctx':
         return f"(OpCtx {ct.nat(op[1])})"
+    if kind == 'wplus':
+        return f"(OpWPlus {ct.nat(op[1])} {ct.nat(op[2])})"
+    if kind == 'sinkto':
+        return f"(OpSinkTo {ct.nat(op[1])} {ct.nat(op[2])})"
     raise KeyError(kind)
 
 
@@ -425,9 +549,6 @@ def classify(ctx, spec, tags):
         false_guards = [g for g in GUARD_FINDING if g in tags]
         excusable = all(t in (11, 12) for t in oracle) and not corr and false_guards \
             and all(ctx.open_finding(GUARD_FINDING[g]) for g in false_guards)
-        # a wrong call count is only explained by the static-input findings, not by the reordering one
-        if excusable and 12 in oracle and not any(g in (201, 202) for g in false_guards):
-            excusable = False
         if excusable:
             for g in false_guards:
                 kh = ctx.coverage.setdefault('known_hits', {})
@@ -509,7 +630,7 @@ def run(ctx):
     reg = sorted((VERIF / 'regress' / 'C17').glob('*.json'))
     specs = [json.loads(p.read_text()) for p in reg]
     nreg = len(specs)
-    n = 500 if ctx.tier == 'quick' else 10000
+    n = 1500 if ctx.tier == 'quick' else 12000
     specs += [gen_spec(ctx.rng) for _ in range(n)]
     if ctx.tier == 'thorough':
         for k in (1, 2, 3, 4, 5):
@@ -523,8 +644,8 @@ def run(ctx):
     ctx.coverage['distinct_nontrivial'] = len({json.dumps(s, sort_keys=True) for s, i in zip(specs, infos) if nontrivial(i)})
     ctx.coverage['rule'] = (
         'random WorkflowBuilder operation sequences (add_task with list / single / no predecessors, replace_task by a '
-        'new or an existing task, insert_workflow of builders and Workflows with and without predecessors, +, '
-        'WorkflowBuilder(Workflow(.)), insert_context, closing add_task on output_tasks) over 1-12 tasks of a pure '
+        'new or an existing task, insert_workflow of builders and Workflows with and without predecessors, builder + and Workflow +, '
+        'WorkflowBuilder(Workflow(.)), insert_context, closing add_task on output_tasks, output task entered early or last) over 1-12 tasks of a pure '
         'call-logging function family with and without a context parameter and static inputs (strings, ints, None, '
         'tuples, lists, dicts, callables; a small stream with key-like strings and callable-headed tuples, cycles and '
         'multi-sink graphs), executed with the real execute_workflow + threaded local_dask dispatcher; from VERIF_SEED; '
@@ -538,11 +659,11 @@ def run(ctx):
         'with_context_tasks': sum(1 for i in infos if i['ctx_tasks'] > 0),
         'guard_static_nokey_false': sum(1 for v in verdicts if 201 in v),
         'guard_static_nocall_false': sum(1 for v in verdicts if 202 in v),
-        'guard_ctx_order_false': sum(1 for v in verdicts if 203 in v),
+        'context_predecessor_before_plain_one': sum(1 for v in verdicts if 203 in v),
         'not_single_sink': sum(1 for v in verdicts if 204 in v),
         'cyclic': sum(1 for v in verdicts if 205 in v),
         'ops_hist': {k: sum(1 for s in specs for o in s['ops'] if o[0] == k)
-                     for k in ('add', 'replace', 'insert', 'plus', 'sink', 'copy', 'ctx')},
+                     for k in ('add', 'replace', 'insert', 'plus', 'wplus', 'sink', 'sinkto', 'copy', 'ctx')},
     }
     ctx.coverage['samples'] = [{'spec': s, 'tags': v} for s, v in list(zip(specs, verdicts))[nreg:nreg + 4]]
 
